@@ -142,7 +142,7 @@ class UnifiedTypeService:
                 f"Unified type system must use X | None exclusively."
             )
 
-        # Quote forward references BEFORE adding | None so we get: "DataSource" | None not "DataSource | None"
+        # Quote forward references BEFORE adding | None (the optional marker is placed inside the quotes below)
         if resolved.is_forward_ref and not python_type.startswith('"'):
             logger.debug(
                 f'Quoting forward ref: {python_type} -> "{python_type}" '
@@ -153,7 +153,12 @@ class UnifiedTypeService:
         # Add modern | None syntax if needed
         # Modern Python 3.10+ uses | None syntax without needing Optional import
         if resolved.is_optional and not python_type.endswith("| None"):
-            python_type = f"{python_type} | None"
+            if python_type.startswith('"') and python_type.endswith('"') and python_type.count('"') == 2:
+                # A quoted forward reference is a plain str when the class body is executed and
+                # `"DataSource" | None` raises TypeError there: keep the whole union inside the quotes
+                python_type = f'"{python_type[1:-1]} | None"'
+            else:
+                python_type = f"{python_type} | None"
 
             # DEBUG: Check for malformed type strings
             if python_type.count("[") != python_type.count("]"):
